@@ -1,6 +1,7 @@
 """C05 — shaping is a pure function: repeatable, buffer/plan reuse and threads are safe."""
 import os, re
 import vlib, corpus
+import _life
 
 MODULE = "RbModel.Props.C05"
 LEVEL = "proof"
@@ -8,7 +9,8 @@ LEVEL = "proof"
 ALPHA = [0x20, 0x2e, 0x31, 0x41, 0x61, 0x62, 0x66, 0x69, 0x301, 0x308, 0x5d0, 0x5d1, 0x5b4, 0x627, 0x628, 0x644, 0x64e,
          0x915, 0x94d, 0x937, 0x93f, 0xe01, 0xe33, 0xe48, 0x1100, 0x1161, 0xac00, 0x200c, 0x200d, 0xfe0f, 0x3042,
          0x16a0, 0x1f600, 0x10a00]
-SCRIPTS = ["Latn", "Arab", "Hebr", "Deva", "Thai", "Runr", "Zyyy", "Hang", "Grek", "Zzzz"]
+ALPHA += [c for f in _life.FAMILIES.values() for c in f["bases"] + f["marks"] if c not in ALPHA] + [0x25cc]
+SCRIPTS = ["Latn", "Arab", "Hebr", "Deva", "Thai", "Runr", "Zyyy", "Hang", "Grek", "Zzzz", "Syrc"]
 LANGS = ["en", "ar", "sr", "x-hbot-41424320", "zh-Hant", "TR"]
 FLAGS = [0, 1, 2, 3, 4, 8, 0x10, 0x40, 0xC3, 0xFF]
 FEATS = ["-", "6b65726e:0:0:4294967295", "6c696761:0:0:4294967295", "73733031:1:0:4294967295",
@@ -20,7 +22,7 @@ def fonts_dir():
 
 
 FIXED_FONTS = ["in-house/03e3f463c3a985bc42096620cc415342818454fb.ttf", "text-rendering-tests/TestMORXThirtyone.ttf",
-               "text-rendering-tests/NotoNastaliqUrdu-Regular.ttf"]
+               "in-house/NotoNastaliqUrdu-Regular.ttf"]
 
 
 def pick_fonts(r, k):
@@ -160,6 +162,58 @@ def lifecycle_lines(r, shim, n):
         if r.chance(1, 300):
             ops = ["shape -", "clear", "pushn 61 17000"] + ops
         lines.append(head(f, T, D) + " ; " + " ; ".join(ops))
+    # earlier uses that leave every kind of residue (an in-place GPOS pass leaves the cursor at the end, both contexts,
+    # properties, level, not-found glyph), then clear() and a residue-sensitive request: every field is read back after
+    # every call and compared with the model (whose pipeline body is the identity: after clear() nothing of it may show)
+    rf = _life.residue_font()
+    cg = _life.corpus_gpos_cases(shim, corpus.load())
+    cg = r.shuffle(cg)[:max(n // 12, 1)] if cg else []
+    T2, D2 = extra_tables(shim, sorted({ord(ch) for _, text in cg for ch in text} - set(ALPHA)), T, D)
+    for i in range(n // 3):
+        ops = _life.residue_use(r)
+        f = rf
+        if cg and i % 4 == 3:
+            f, text = cg[(i // 4) % len(cg)]
+            ops = ["push " + _life.hx([ord(ch) for ch in text]), f"flags {r.choice(FLAGS)}", r.choice(["shape -", "plan -"])]
+        req, _ = _life.sensitive_request(r, _life.SENSITIVE[i % len(_life.SENSITIVE)])
+        ops += ["clear"] + req
+        if r.chance(2, 3):
+            ops += [r.choice(["shape -", "plan -"]), "clear"]
+        used = {int(x, 16) for o in ops if o.split()[0] in ("push", "add", "pushn") for x in o.split()[1].split(",") if x != "-"}
+        lines.append(head(f, {c: t for c, t in T2.items() if c in used}, D2) + " ; " + " ; ".join(ops))
+    return lines
+
+
+def extra_tables(shim, chars, T, D):
+    """T / D extended by the strong scripts of further characters (same public-api probe as unicode_tables)"""
+    T2, D2 = dict(T), dict(D)
+    o = vlib.run_lines(shim, [f"lcprop c {c:x}" for c in chars], nproc=1)
+    for c, rep in zip(chars, o):
+        tag = int(rep.split()[0])
+        if tag:
+            T2[c] = tag
+    need = sorted({t for t in T2.values() if t not in D2})
+    o = vlib.run_lines(shim, ["lcprop s " + tag.to_bytes(4, "big").decode("latin1") for tag in need], nproc=1)
+    for t, rep in zip(need, o):
+        D2[t] = int(rep.split()[1])
+    return T2, D2
+
+
+def clear_probe_lines(r, n, scripts_tags):
+    """`lcclear`: hb_buffer_t::clear() on a bare buffer whose EVERY field is drawn (hook clear_probe) vs Life.clear"""
+    lines = []
+    for _ in range(n):
+        k = r.below(7)
+        il = k + r.below(4)
+        recs = ",".join(f"{r.choice(ALPHA)}:{r.below(40)}" for _ in range(k)) or "-"
+        ctxs = [",".join(f"{r.choice(ALPHA):x}" for _ in range(r.below(6))) or "-" for _ in range(2)]
+        lang = "x" + r.choice(LANGS).lower().encode().hex() if r.chance(2, 3) else "-"
+        lines.append(
+            f"lcclear L={r.below(3)} F={r.choice(FLAGS)} M={r.choice([16384, 0x3FFFFFFF, 100, 64 * 300])} "
+            f"O={r.choice([0x1FFFFFFF, 16384, 0, 77, 1024 * 300])} h={r.below(2)} s={r.below(2)} p={r.below(2)} ok={r.below(2)} "
+            f"i={r.below(il + 3)} n={k} o={r.below(9)} sc={r.choice([0, 1, 2, 5, 0x20, 0xff, 0x1000000])} se={r.below(256)} "
+            f"il={il} pl={r.below(9)} D={r.below(5)} S={r.choice(['-'] + scripts_tags)} G={lang} pre={ctxs[0]} post={ctxs[1]} "
+            f"sf={r.below(2)} nf={r.choice(['-', '0', '3', '70000'])} inv=- I={recs}")
     return lines
 
 
@@ -230,6 +284,14 @@ def recycle_search(ctx, shim, r, n):
             for txt in ("61", "61,61", "62,61,62"):
                 for fin in ("shape -", "plan -"):
                     cases.append((xf, [f"pushn 62 {big}", "flags 0", "shape -"], [f"push {txt}", "flags 0", "level 0"], fin))
+    # the other way round: an earlier use that ENDS UNSUCCESSFUL (the expansion is refused at the length limit, with and
+    # without a long text before it), then an ordinary request: a failure must not outlive clear()
+    for xf in expander_fonts():
+        for early in (["push 61"], ["push 61,62,61"], ["pushn 62 300", "push 61"]):
+            for txt in ("62", "62,62,62", "61"):
+                for fin in ("shape -", "plan -"):
+                    cases.append((xf, early + ["flags 0", r.choice(["shape -", "plan -"])],
+                                  [f"push {txt}", f"flags {r.choice([0, 1, 3])}", f"level {r.below(3)}"], fin))
     for _ in range(n):
         f = r.choice(fonts)
         hist = history_ops(r, scripts, r.range(1, 8))
@@ -239,18 +301,46 @@ def recycle_search(ctx, shim, r, n):
             pass
         req = fill_ops(r, scripts, big=r.chance(1, 25))
         cases.append((f, hist, req, r.choice(["shape ", "plan "]) + r.choice(FEATS)))
+    cases = [c + ("random",) for c in cases]
+    # histories that leave EVERY kind of residue (cursor after an in-place GPOS pass, both contexts, properties, level,
+    # not-found glyph, flags, allocation) followed by requests that are sensitive to one kind each (tools/props/_life.py)
+    rf = _life.residue_font()
+    for i in range(ctx.budget(1200, 30000)):
+        kind = _life.SENSITIVE[i % len(_life.SENSITIVE)]
+        req, fam = _life.sensitive_request(r, kind)
+        hist = _life.residue_use(r, fam if r.chance(1, 2) else None)
+        if r.chance(1, 3):
+            hist = _life.residue_use(r) + ["clear"] + hist
+        cases.append((rf, hist, req, r.choice(["shape ", "plan "]) + r.choice(_life.FEATS), kind))
+    # the same on corpus fonts that have GPOS and a dotted circle, with the corpus' own texts: earlier use = the text,
+    # request = the text with its first combining mark moved to the front, BEGINNING_OF_TEXT, every cluster level
+    cg = _life.corpus_gpos_cases(shim, corpus.load())
+    for fs, text in r.shuffle(cg)[:ctx.budget(150, 3000)]:
+        m = next(ch for ch in text if _life.is_mark(ch))
+        t2 = [ord(m)] + [ord(ch) for ch in text]
+        if r.chance(1, 2):
+            t2 = t2[:r.range(2, len(t2))]
+        hist = ["pre " + _life.hx([ord(ch) for ch in text[-3:]]), "push " + _life.hx([ord(ch) for ch in text]),
+                "post " + _life.hx([ord(ch) for ch in text[:3]]), f"flags {r.choice(FLAGS)}", f"level {r.below(3)}",
+                r.choice(["shape -", "plan -"])]
+        cases.append((fs, hist, ["push " + _life.hx(t2), f"flags {r.choice(_life.FLAGS_BOT)}", f"level {r.below(3)}"],
+                      r.choice(["shape -", "plan -"]), "corpus-mark-first"))
     lines = []
-    for f, hist, req, fin in cases:
+    for f, hist, req, fin, kind in cases:
         lines.append(f"lc {f} ; " + " ; ".join(hist + ["clear"] + req + [fin, "dump"]))
         lines.append(f"lc {f} ; " + " ; ".join(["new"] + req + [fin, "dump"]))
     outs = vlib.run_lines(shim, lines, timeout=900)
     bad = []
     nontriv = 0
-    for i, (f, hist, req, fin) in enumerate(cases):
+    kinds, badkinds = {}, {}
+    for i, (f, hist, req, fin, kind) in enumerate(cases):
         a, b = outs[2 * i], outs[2 * i + 1]
+        kinds[kind] = kinds.get(kind, 0) + 1
+        nb = len(bad)
         if not a.startswith("ok") or not b.startswith("ok"):
             if a != b or a.startswith(("panic", "abort", "timeout")):
                 bad.append((len(lines[2 * i]), i, "crash or reject", a[:300], b[:300]))
+                badkinds[kind] = badkinds.get(kind, 0) + 1
             continue
         sa, sb = a[3:].split(" | "), b[3:].split(" | ")
         # compare: the filled buffer right before the shape (content, props) and the shaping result
@@ -261,18 +351,41 @@ def recycle_search(ctx, shim, r, n):
         if fa != fb:
             diff = {k: (fa.get(k), fb.get(k)) for k in set(fa) | set(fb) if fa.get(k) != fb.get(k)}
             bad.append((len(lines[2 * i]), i, f"recycled buffer differs from a fresh one before shaping: {diff}", sa[-3], sb[-3]))
-        elif ra != rb:
+        elif kv(ra).get("dump") != kv(rb).get("dump"):
             bad.append((len(lines[2 * i]), i, "shaping result differs between recycled and fresh buffer", ra[:400], rb[:400]))
+        elif ra != rb:
+            # same glyphs, but a field of the returned glyph buffer (read through the hook) differs: reported after the
+            # cases whose output differs
+            da, db = kv(ra), kv(rb)
+            diff = sorted(k for k in set(da) | set(db) if da.get(k) != db.get(k))
+            bad.append((10 ** 9 + len(lines[2 * i]), i, "same glyphs, but the returned glyph buffer differs between recycled "
+                        f"and fresh buffer in the fields {diff} (state line of harness `lc`)", ra[:400], rb[:400]))
+        if len(bad) > nb:
+            badkinds[kind] = badkinds.get(kind, 0) + 1
     bad.sort()
-    for _, i, what, x, y in bad[:3]:
-        f, hist, req, fin = cases[i]
+    # the shortest failing input overall, then the shortest of every other kind of request (at most 4 replays)
+    shown, pick = set(), []
+    for x in bad:
+        k = cases[x[1]][4]
+        if not pick or (k not in shown and len(pick) < 4):
+            pick.append(x)
+            shown.add(k)
+    for _, i, what, x, y in pick:
+        f, hist, req, fin, kind = cases[i]
         ctx.violation(f"buffer recycled with clear() is not equivalent to a fresh buffer — {what}",
-                      {"stage": "search", "stream": "recycle", "font": f, "history": hist, "request": req, "final": fin,
-                       "recycled": x, "fresh": y})
-    ctx.note_search("recycle", len(cases), nontriv, deviations=len(bad),
-                    rule="public api only: <random history incl. shapes of empty/non-empty buffers, other directions/levels/"
-                         "flags> ; clear ; <request> ; shape  vs  new ; <request> ; shape — the filled buffer as its public getters "
-                         "show it (len, direction, script, language, cluster_level, flags) and the output must be identical; non-trivial = at least one output glyph")
+                      {"stage": "search", "stream": "recycle", "kind": kind, "font": f, "history": hist, "request": req,
+                       "final": fin, "recycled": x, "fresh": y})
+    ctx.note_search("recycle", len(cases), nontriv, deviations=len(bad), kinds=kinds, deviations_per_kind=badkinds,
+                    rule="public api only: <earlier use> ; clear ; <request> ; shape  vs  new ; <request> ; shape — the filled "
+                         "buffer as its public getters show it (len, direction, script, language, cluster_level, flags) and the "
+                         "output must be identical; non-trivial = at least one output glyph.  Earlier uses: random histories "
+                         "incl. shapes of empty / non-empty buffers (kind random); uses that leave every kind of residue on a "
+                         "generated multi-script font with GDEF / GSUB / GPOS — cursor after an in-place GPOS pass, pre- and "
+                         "post-context, direction / script / language, cluster level, not-found glyph, flags, long text — "
+                         "followed by a request sensitive to one of them: mark-first text with BEGINNING_OF_TEXT (longer and "
+                         "shorter than the earlier output), joining text ending / starting in a dual-joining letter filled by "
+                         "push_str without a context call, an unsupported variation selector, no property call at all; and "
+                         "corpus fonts with GPOS and U+25CC on the corpus' texts (mark moved to the front), all cluster levels")
 
 
 def repeat_search(ctx, shim, r, ncases):
@@ -435,6 +548,9 @@ def run(ctx):
     inventory.check(ctx)
     r = ctx.rng("lifecycle")
     ctx.correspond("lifecycle", lines=lifecycle_lines(r, shim, ctx.budget(3000, 100000)), classify=classify, canon=strip_out)
+    _, _, canon = unicode_tables(shim)
+    ctx.correspond("clear-probe", lines=clear_probe_lines(ctx.rng("clearprobe"), ctx.budget(3000, 60000),
+                                                          [str(canon[s_]) for s_ in canon_scripts(canon)]))
     F = pick_fonts(ctx.rng("rand"), 0)[0]
     ctx.correspond("rand", lines=[f"lcrand {F} {n}" for n in (0, 1, 5, 64, 1000)])
     recycle_search(ctx, shim, ctx.rng("recycle"), ctx.budget(1500, 40000))
